@@ -293,6 +293,71 @@ def decode_provenance(analysis: Analysis, enc_default):
     return rows
 
 
+def ctor_copy_paths(analysis: Analysis):
+    """Constructor keyword names and copy() semantics by abstract interpretation (robust to helper extraction)."""
+    from ..values import BoundV, Const, DictV, Obj, Sym, Unknown
+
+    rows = []
+    ctx = analysis.context(analysis.versions[-1], "serial", "sync")
+    init = analysis.p.func("message:Message.__init__")
+    w = common.where(analysis, init, init.node)
+    # Message(**{six names}) stores each keyword under the attribute of the same name
+    it = analysis.new_interp(ctx)
+    st = it.new_state()
+    kw = {name: Sym(("root", "kw_" + name), "int" if name != "payload" else "str") for name in FIELDS}
+    outs = it.instantiate(st, "message:Message", [], dict(kw), init.node)
+    good = [o for o in outs if o[0] == "val"]
+    ok = bool(good)
+    stored = {}
+    for kind, s, v in good:
+        for name in FIELDS:
+            val = s.mem.get((v.key(), "a", name))
+            stored.setdefault(name, []).append(val is not None and val.key() == kw[name].key())
+    ok_all = ok and all(all(stored.get(n, [False])) for n in FIELDS)
+    rows.append(("__init__: the six frame fields are keyword arguments stored under their own names", ok_all, w, "Message(node_id=.., child_id=.., type=.., ack=.., sub_type=.., payload=..) sets exactly these attributes" if ok_all else f"not stored as given: {[n for n in FIELDS if not all(stored.get(n, [False]))]}"))
+    # defaults: Message() has int-like header defaults and an empty payload
+    it = analysis.new_interp(ctx)
+    st = it.new_state()
+    outs = [o for o in it.instantiate(st, "message:Message", [], {}, init.node) if o[0] == "val"]
+    dflt_ok = bool(outs)
+    for kind, s, v in outs:
+        for name in FIELDS[:5]:
+            val = s.mem.get((v.key(), "a", name))
+            dflt_ok = dflt_ok and isinstance(val, Const) and isinstance(val.value, int)
+        pv = s.mem.get((v.key(), "a", "payload"))
+        dflt_ok = dflt_ok and isinstance(pv, Const) and pv.value == ""
+    rows.append(("__init__: defaults are integer header fields and an empty payload", dflt_ok, w, "Message() is 0;0;0;0;0;"))
+    # copy(): goes through the codec and replaces exactly the passed fields
+    cp = analysis.p.func("message:Message.copy")
+    wc = common.where(analysis, cp, cp.node)
+    it = analysis.new_interp(ctx)
+    st = it.new_state()
+    m = Obj("Message#orig", "message:Message")
+    for name in FIELDS[:5]:
+        st.mem[(m.key(), "a", name)] = Unknown("int", label=f"orig.{name}")
+    st.mem[(m.key(), "a", "payload")] = Unknown("str", label="orig.payload")
+    st.mem[(m.key(), "a", "gateway")] = Const(None)
+    st.add_fact(("canonical", m.key()))
+    newp = Sym(("root", "new_payload"), "str")
+    newt = Sym(("root", "new_type"), "int")
+    outs = it.call_func(st, BoundV(m, cp), [], {"payload": newp, "type": newt}, cp.node)
+    good = [o for o in outs if o[0] == "val"]
+    via_codec = replaced = others_decoded = bool(good)
+    for kind, s, v in good:
+        names = [e.name for e in s.events if e.kind == "enter"]
+        via_codec = via_codec and "message:Message.encode" in names and "message:Message.decode" in names and isinstance(v, Obj) and v.key() != m.key()
+        pv, tv = s.mem.get((v.key(), "a", "payload")), s.mem.get((v.key(), "a", "type"))
+        replaced = replaced and pv is not None and pv.key() == newp.key() and tv is not None and tv.key() == newt.key()
+        for name in ("node_id", "child_id", "ack", "sub_type"):
+            val = s.mem.get((v.key(), "a", name))
+            lab = getattr(val, "label", "")
+            others_decoded = others_decoded and val is not None and ("unpack" in lab or lab.startswith("int("))
+        gv = s.mem.get((v.key(), "a", "gateway"))
+    rows.append(("copy: a new message built through the codec (decode(encode(self)))", via_codec, wc, "copy goes through Message.encode and Message.decode"))
+    rows.append(("copy: replaces exactly the passed keyword fields", replaced and others_decoded, wc, "passed fields are set on the copy, the others come from the decoded original" if replaced and others_decoded else "the passed fields are not (only) what differs on the copy"))
+    return rows
+
+
 def layout_agreement(analysis: Analysis):
     """C02-R1 as a list of (construct, ok, where, detail). Also used as the precondition of LEMMA-COPY."""
     out = []
@@ -311,26 +376,8 @@ def layout_agreement(analysis: Analysis):
     enc_default = _param_default(enc_info.node, sep[1]) if sep[0] == "param" else sep[1]
     for row in decode_provenance(analysis, enc_default):
         out.append(row)
-    # constructor: the same six names
-    init = analysis.p.func("message:Message.__init__")
-    names = set()
-    for node in ast.walk(init.node):
-        if isinstance(node, ast.Assign) and len(node.targets) == 1 and isinstance(node.targets[0], ast.Attribute) and isinstance(node.targets[0].value, ast.Name) and node.targets[0].value.id == "self":
-            names.add(node.targets[0].attr)
-    out.append(("__init__: the six frame fields are attributes", set(FIELDS) <= names, common.where(analysis, init, init.node), f"constructor sets {sorted(names)}"))
-    kw = set()
-    for c in common.calls_in(init.node, "get"):
-        if c.args and isinstance(c.args[0], ast.Constant) and isinstance(c.args[0].value, str):
-            kw.add(c.args[0].value)
-    params = {a.arg for a in init.node.args.args + init.node.args.kwonlyargs}
-    out.append(("__init__: keyword names are the six field names", set(FIELDS) <= (kw | params), common.where(analysis, init, init.node), f"keyword names accepted: {sorted(kw | (params - {'self', 'data', 'gateway'}))}"))
-    # copy = decode(encode(self)) then setattr of exactly the passed keys
-    cp = analysis.p.func("message:Message.copy")
-    txt = unparse(cp.node)
-    via_codec = any(isinstance(c.func, ast.Name) and c.func.id == "Message" and c.args and "encode" in unparse(c.args[0]) for c in ast.walk(cp.node) if isinstance(c, ast.Call))
-    setattr_loop = any(isinstance(n, ast.For) and "kwargs" in unparse(n.iter) and any(isinstance(c, ast.Call) and isinstance(c.func, ast.Name) and c.func.id == "setattr" for c in ast.walk(n)) for n in ast.walk(cp.node))
-    out.append(("copy: built as Message(self.encode(), ...)", via_codec, common.where(analysis, cp, cp.node), "copy goes through the codec"))
-    out.append(("copy: replaces exactly the passed keyword fields", setattr_loop, common.where(analysis, cp, cp.node), "for key, val in kwargs.items(): setattr(msg, key, val)"))
+    for row in ctor_copy_paths(analysis):
+        out.append(row)
     return out
 
 
